@@ -346,6 +346,8 @@ package jet
 //@   loop 0 invariant PInv(t) && list != nil
 //@   loop 1 invariant PInv(t) && list != nil && n != nil && WFTag(n) && -1 <= rangeindex
 //@   ensures PInv(t) && list != nil && next != nil && WFTag(next)
+//@   callsite (*ListNode).append 0 requires [only-statements-enter-a-list] {C20,C02} NTF(n) != nodeEnd && NTF(n) != nodeElse && NTF(n) != nodeContent && NTF(n) != nodeCatch
+//@   ensures [the-list-ends-at-one-of-its-terminators] {C02} exists(k, 0, len(terminatedBy), NTF(next) == terminatedBy[k])
 
 //@ func (*Template).parseControl
 //@   props C02 C05 C20
@@ -437,6 +439,7 @@ package jet
 //@   loop 1 invariant [imports-non-nil] forall(i, 0, len(t.imports), t.imports[i] != nil)
 //@   loop 2 invariant PInv(t) && t.Root != nil && fresh(t.Root)
 //@   loop 2 invariant [imports-non-nil] forall(i, 0, len(t.imports), t.imports[i] != nil)
+//@   callsite (*ListNode).append 1 requires [only-statements-enter-the-root-list] {C20,C02} NTF(n) != nodeEnd && NTF(n) != nodeElse && NTF(n) != nodeContent && NTF(n) != nodeCatch
 //@   loop 2 step [parsed-nodes-follow-the-kept-whitespace] {C03} len(t.Root.Nodes) == prev(len(t.Root.Nodes)) + 1 && forall(k, 0, prev(len(t.Root.Nodes)), t.Root.Nodes[k] == prev(t.Root.Nodes[k]))
 //@   ensures PInv(t) && forall(i, 0, len(t.imports), t.imports[i] != nil)
 
